@@ -112,6 +112,12 @@ func (ctx *Context) Parse(value string) error {
 		return err
 	}
 
+	if p.cur.data.codeOverflow {
+		err = errors.New("E1: 指令数超出上限，请不要发送过长的指令")
+		ctx.Error = err
+		return err
+	}
+
 	p.cur.data.dropAbandonedTail(p.pt.offset)
 	ctx.code = p.cur.data.code
 	ctx.codeIndex = p.cur.data.codeIndex
